@@ -27,6 +27,10 @@ def decode(case):
     q = [f(r) for r in case["q"]]
     if case.get("container") == "list":
         return x, q
+    if case.get("container") in ("intx", "intxlist") and enc["kind"] == "rat" and all(r[1] == 1 for r in case["x"]):
+        # the searched array integer-typed (counters, sample numbers), the queries fractional
+        xi = [int(r[0]) for r in case["x"]]
+        return (xi if case["container"] == "intxlist" else np.array(xi, dtype=np.int64)), np.array(q, dtype=float)
     return np.array(x, dtype=float), np.array(q, dtype=float)
 
 
@@ -143,7 +147,7 @@ def run():
         from fractions import Fraction
         cases.append({"fn": "search", "x": [[v, 1] for v in j["x"]],
                       "q": [[fr.numerator, fr.denominator] for fr in (Fraction(v, 2) for v in j["q2"])],
-                      "enc": {"kind": "rat"}, "container": "array"})
+                      "enc": {"kind": "rat"}, "container": ("array", "intx", "intxlist")[len(cases) % 3]})
     lattice = len(cases)
     cases += list(random_cases(c.rng, 20000 if c.thorough else 3000))
     if c.replay_path:
